@@ -8,45 +8,50 @@ from pi2v import tkey
 CFG = 'SPECIFICATION Spec\nCONSTANTS\n BlockSize = {bs}\nCHECK_DEADLOCK FALSE\n'
 
 
-def recipe(r):
+def recipe(r, axioms=()):
     k = r['k']
+    if k == 'axiom':
+        return ['axiom', [tkey(a) for a in axioms].index(tkey(r['t']))]
     if k == 'mp':
-        return ['mp', recipe(r['a']), recipe(r['b'])]
+        return ['mp', recipe(r['a'], axioms), recipe(r['b'], axioms)]
     if k in ('dyn', 'inst'):
-        return [k, recipe(r['a']), [[kv[0], kv[1]] for kv in r['d']]]
+        return [k, recipe(r['a'], axioms), [[kv[0], kv[1]] for kv in r['d']]]
     if k == 'gen':
-        return ['gen', recipe(r['a']), r['x']]
+        return ['gen', recipe(r['a'], axioms), r['x']]
     return [k]
 
 
-def enumerate_model(v, name):
+def enumerate_model(v, name, what='exps'):
     """the enumeration depends on the specification only: cached per spec text (like the term universes)"""
     import hashlib, os
     src = ''.join(open(os.path.join(pi2v.SPEC, f)).read() for f in ('MLCore.tla', 'MLMachine.tla', 'TraceBlocks.tla', 'ProofExp.tla', 'MC_ProofExp.tla'))
     cache = os.path.join(pi2v.BUILD, 'pexp-%s.json' % hashlib.sha256(src.encode()).hexdigest()[:16])
     if os.path.exists(cache):
         v.assumptions.append('MC_ProofExp enumeration reused from the per-spec-text cache (it does not depend on the repository)')
-        return json.load(open(cache))
+        return json.load(open(cache))[what]
     wd = pi2v.workdir(name)
     res = pi2v.run_tlc('MC_ProofExp', CFG.format(bs=50), wd, timeout=1200)
     pi2v.tlc_must_be_clean(res, name)
     if res.fails:
         raise pi2v.MachineryError(f'spec/ProofExpRun.tla: the compile theorem fails in the model itself: {res.fails[:3]}')
     v.add_tlc(res)
-    exps = []
+    exps, mods = [], []
     for line in res.out.splitlines():
-        if line.startswith('"PEXP ') or line.startswith('PEXP '):
-            s = line.strip()
-            if s.startswith('"'):
-                s = json.loads(s)
+        s = line.strip()
+        if s.startswith('"P'):
+            s = json.loads(s)
+        if s.startswith('PEXP '):
             exps.append(json.loads(s[5:]))
-    if not exps:
-        raise pi2v.MachineryError('MC_ProofExp exported no expression')
+        elif s.startswith('PMOD '):
+            mods.append(json.loads(s[5:]))
+    if not exps or not mods:
+        raise pi2v.MachineryError('MC_ProofExp exported no expression / module')
     exps.sort(key=lambda e: json.dumps(e, sort_keys=True))
+    mods.sort(key=lambda e: json.dumps(e, sort_keys=True))
     tmp = cache + '.%d' % os.getpid()
-    json.dump(exps, open(tmp, 'w'))
+    json.dump({'exps': exps, 'mods': mods}, open(tmp, 'w'))
     os.replace(tmp, cache)
-    return exps
+    return {'exps': exps, 'mods': mods}[what]
 
 
 def run(v, tag, limit=None, rng=None):
@@ -96,3 +101,37 @@ def modules(v, rng, n, per=4):
     rng.shuffle(exps)
     exps = exps[:n * per]
     return [{'lib': False, 'proofs': [recipe(e['r']) for e in exps[i:i + per]]} for i in range(0, len(exps), per)]
+
+
+def run_modules(v, tag, limit=None, rng=None):
+    """whole modules enumerated by the model with the three files it predicts: built and executed by the real toolkit
+    (plain SerializingInterpreter), the files compared byte for byte by TLC, and verified by the real verify()"""
+    mods = enumerate_model(v, tag.lower() + '-pexp-model', 'mods')
+    if limit and len(mods) > limit:
+        imp = [m for m in mods if m['m']['imports']]
+        mods = imp + rng.sample([m for m in mods if not m['m']['imports']], max(0, limit - len(imp)))
+    def spec_of(m):
+        return {'lib': False, 'imports': [spec_of(x) for x in m['imports']], 'axioms': m['axioms'], 'proofs': [recipe(r, m['axioms']) for r in m['proofs']]}
+    specs = [spec_of(m['m']) for m in mods]
+    out = lem.run_applications([{'cmd': 'expr', 'module': sp, 'interps': False, 'traces': [False]} for sp in specs])
+    cases, vcmds = [], []
+    for m, r in zip(mods, out):
+        built = bool(r.get('built')) and 'trace' in r
+        files = r['trace']['files'] if built else [[], [], []]
+        cases.append({'m': m['m'], 'built': built, 'error': (r['trace']['error'] or '') if built else (r.get('error') or 'refused'), 'files': files, 'rust': ''})
+        vcmds.append('verify ' + ' '.join(str(len(x)) + ' ' + ' '.join(map(str, x)) for x in files))
+    for c, rr in zip(cases, pi2v.rust_run(vcmds)):
+        c['rust'] = rr['out']
+    import os
+    wd = pi2v.workdir(tag.lower() + '-pexp-modules')
+    path = os.path.join(wd, 'cases.ndjson')
+    pi2v.write_ndjson(path, cases)
+    res = pi2v.run_tlc('Trace_ProofExp', CFG.format(bs=20), wd, env={'CASES': path}, timeout=1800)
+    pi2v.tlc_must_be_clean(res, tag + '-pexp-modules')
+    if sum(d[2] for d in res.dones) != len(cases):
+        raise pi2v.MachineryError('pexp-modules: TLC did not examine every case')
+    v.add_tlc(res)
+    v.cov['model_generated_modules'] = len(cases)
+    v.cov['traces_validated_against_impl'] += len(cases)
+    pi2v.log(f'[{tag}] pexp: {len(cases)} model-generated modules (predicted files vs written files), {len(res.fails)} FAIL')
+    return cases, res
